@@ -165,7 +165,7 @@ func isFreshAlloc(inf *types.Info, e ast.Expr) bool {
 		return true
 	case *ast.CallExpr:
 		if id, ok := core.Unparen(x.Fun).(*ast.Ident); ok {
-			if b, ok := inf.Uses[id].(*types.Builtin); ok && b.Name() == "new" {
+			if b, ok := inf.Uses[id].(*types.Builtin); ok && core.NameOf(b) == "new" {
 				return true
 			}
 		}
@@ -356,7 +356,7 @@ func runR083(c *core.Ctx) {
 	}
 	isStatusField := func(e ast.Expr) bool {
 		fv, ok := core.ObjOf(inf, e).(*types.Var)
-		return ok && fv.IsField() && fv.Name() == "ResponseStatus"
+		return ok && fv.IsField() && core.NameOf(fv) == "ResponseStatus"
 	}
 	for name, status := range want {
 		f := c.M.LookupFunc(rel, name)
@@ -469,14 +469,14 @@ func runR083(c *core.Ctx) {
 							return false
 						}
 						fv, isF := core.ObjOf(inf, e).(*types.Var)
-						return isF && fv.IsField() && fv.Name() == "Status"
+						return isF && fv.IsField() && core.NameOf(fv) == "Status"
 					}, nil) {
 						nil500 = true
 					}
 				}
 			}
 		case *ast.CallExpr:
-			if f := core.Callee(inf, x); f != nil && f.Name() == "Set" && len(x.Args) == 2 && core.ObjOf(inf, x.Args[0]) == errHeader {
+			if f := core.Callee(inf, x); f != nil && core.NameOf(f) == "Set" && len(x.Args) == 2 && core.ObjOf(inf, x.Args[0]) == errHeader {
 				hdr = true
 			}
 		}
@@ -623,7 +623,7 @@ func runR085(c *core.Ctx) {
 			switch x := n.(type) {
 			case *ast.CallExpr:
 				if id, ok := core.Unparen(x.Fun).(*ast.Ident); ok {
-					if b, ok := inf.Uses[id].(*types.Builtin); ok && b.Name() == "recover" {
+					if b, ok := inf.Uses[id].(*types.Builtin); ok && core.NameOf(b) == "recover" {
 						rec = true
 					}
 				}
@@ -684,7 +684,7 @@ func runR085(c *core.Ctx) {
 		if isResourceCallback(inf, call, reqCtx, handlerT) {
 			return "handler call"
 		}
-		if f := core.Callee(inf, call); f != nil && f.Name() == "MarshalRestLi" && f.Pkg() != nil && f.Pkg().Path() == codec {
+		if f := core.Callee(inf, call); f != nil && core.NameOf(f) == "MarshalRestLi" && f.Pkg() != nil && f.Pkg().Path() == codec {
 			return "response body MarshalRestLi"
 		}
 		return ""
@@ -707,7 +707,7 @@ func runR085(c *core.Ctx) {
 		})
 		if called {
 			check(core.DeclName(fd), fd, func(call *ast.CallExpr) string {
-				if f := core.Callee(inf, call); f != nil && f.Name() == "MarshalRestLi" && f.Pkg() != nil && f.Pkg().Path() == codec {
+				if f := core.Callee(inf, call); f != nil && core.NameOf(f) == "MarshalRestLi" && f.Pkg() != nil && f.Pkg().Path() == codec {
 					// only dynamic dispatch on the Marshaler interface (resource-provided value)
 					if sig, ok := f.Type().(*types.Signature); ok && sig.Recv() != nil {
 						if _, isIface := sig.Recv().Type().Underlying().(*types.Interface); isIface {
@@ -735,12 +735,12 @@ func runR086(c *core.Ctx) {
 	ast.Inspect(fd.Body, func(n ast.Node) bool {
 		switch x := n.(type) {
 		case *ast.CallExpr:
-			if f := core.Callee(inf, x); f != nil && f.Name() == "Get" && len(x.Args) == 1 && core.ObjOf(inf, x.Args[0]) == errHeader {
+			if f := core.Callee(inf, x); f != nil && core.NameOf(f) == "Get" && len(x.Args) == 1 && core.ObjOf(inf, x.Args[0]) == errHeader {
 				usesHeader = true
 			}
 		case *ast.AssignStmt:
 			if len(x.Lhs) == 1 {
-				if fv, ok := core.ObjOf(inf, x.Lhs[0]).(*types.Var); ok && fv.IsField() && fv.Name() == "Status" {
+				if fv, ok := core.ObjOf(inf, x.Lhs[0]).(*types.Var); ok && fv.IsField() && core.NameOf(fv) == "Status" {
 					statusGuard = core.GuardedByFact(inf, par, x, func(f core.Fact) bool {
 						e, nonNil, ok := core.NilTest(inf, f)
 						return ok && !nonNil && core.SameExpr(inf, e, x.Lhs[0])
